@@ -68,6 +68,7 @@ type PathResult struct {
 	Observes   []string
 	Steps      int64
 	Branches   int // solver-decided decisions made new on this path
+	Choices    int // scheduler / harness n-way choices made new on this path
 	AssertsSolver,
 	AssertsConcrete int
 	SampleInputs []uint64
@@ -108,6 +109,7 @@ type pathState struct {
 	deadlockDesc string
 	preemptions  int
 	sampleWanted bool
+	choices      int
 	witnesses    []Violation
 }
 
@@ -290,6 +292,7 @@ func (ex *Exec) chooseK(kind byte, n int, why string) int {
 		ex.record(d)
 		return int(d.V)
 	}
+	ex.ps.choices++
 	for i := 1; i < n; i++ {
 		ex.pushAlt(Decision{kind, uint64(i)})
 	}
